@@ -1,4 +1,5 @@
 import PlaybackModel.Recorder
+import PlaybackProofs.SourceAtoms
 /-! Generated projection lemmas: which state components each helper leaves untouched (tools/gen_recorder_simp.py). -/
 namespace PlaybackModel.Recorder
 
@@ -149,29 +150,29 @@ namespace PlaybackModel.Recorder
 @[simp] theorem doDiscard_journal (s : St) : (doDiscard s).journal = s.journal := by
   unfold doDiscard; split <;> simp only [resetActive, addLog]
 @[simp] theorem doSetEnabled_playback (s : St) (b : Bool) : (doSetEnabled s b).playback = s.playback := by
-  unfold doSetEnabled; split <;> simp
+  rw [doSetEnabled_eq]; split <;> simp
 @[simp] theorem doSetEnabled_playbackOutputs (s : St) (b : Bool) : (doSetEnabled s b).playbackOutputs = s.playbackOutputs := by
-  unfold doSetEnabled; split <;> simp
+  rw [doSetEnabled_eq]; split <;> simp
 @[simp] theorem doSetEnabled_inInt (s : St) (b : Bool) : (doSetEnabled s b).inInt = s.inInt := by
-  unfold doSetEnabled; split <;> simp
+  rw [doSetEnabled_eq]; split <;> simp
 @[simp] theorem doSetEnabled_draws (s : St) (b : Bool) : (doSetEnabled s b).draws = s.draws := by
-  unfold doSetEnabled; split <;> simp
+  rw [doSetEnabled_eq]; split <;> simp
 @[simp] theorem doSetEnabled_drawn (s : St) (b : Bool) : (doSetEnabled s b).drawn = s.drawn := by
-  unfold doSetEnabled; split <;> simp
+  rw [doSetEnabled_eq]; split <;> simp
 @[simp] theorem doSetEnabled_clock (s : St) (b : Bool) : (doSetEnabled s b).clock = s.clock := by
-  unfold doSetEnabled; split <;> simp
+  rw [doSetEnabled_eq]; split <;> simp
 @[simp] theorem doSetEnabled_nextId (s : St) (b : Bool) : (doSetEnabled s b).nextId = s.nextId := by
-  unfold doSetEnabled; split <;> simp
+  rw [doSetEnabled_eq]; split <;> simp
 @[simp] theorem doSetEnabled_store (s : St) (b : Bool) : (doSetEnabled s b).store = s.store := by
-  unfold doSetEnabled; split <;> simp
+  rw [doSetEnabled_eq]; split <;> simp
 @[simp] theorem doSetEnabled_journal (s : St) (b : Bool) : (doSetEnabled s b).journal = s.journal := by
-  unfold doSetEnabled; split <;> simp
+  rw [doSetEnabled_eq]; split <;> simp
 @[simp] theorem doSetEnabled_enabled (s : St) (b : Bool) : (doSetEnabled s b).enabled = b := by
-  unfold doSetEnabled; split <;> simp_all
+  rw [doSetEnabled_eq]; split <;> simp_all
 theorem doSetEnabled_inactive {s : St} (b : Bool) (h : s.active = none) : doSetEnabled s b = { s with enabled := b } := by
-  cases b <;> simp [doSetEnabled, doDiscard, h]
-theorem doSetEnabled_true (s : St) : doSetEnabled s true = { s with enabled := true } := by simp [doSetEnabled]
-theorem doSetEnabled_false (s : St) : doSetEnabled s false = { doDiscard s with enabled := false } := by simp [doSetEnabled]
+  cases b <;> simp [doSetEnabled_eq, doDiscard, h]
+theorem doSetEnabled_true (s : St) : doSetEnabled s true = { s with enabled := true } := by simp [doSetEnabled_eq]
+theorem doSetEnabled_false (s : St) : doSetEnabled s false = { doDiscard s with enabled := false } := by simp [doSetEnabled_eq]
 @[simp] theorem doForce_enabled (s : St) : (doForce s).enabled = s.enabled := by
   unfold doForce; split <;> (try split) <;> rfl
 @[simp] theorem doForce_active (s : St) : (doForce s).active = s.active := by
